@@ -118,8 +118,10 @@ fn run_case<G: AffineRepr>(env: &Env<G>, c: &Case) -> CaseOut {
         if let Some(b) = &bad {
             if cap >= t {
                 let rb = guarded(|| crate::interp::cur::verify_program::<G>(&prog, &vs, b, &env.pc, &bp).res);
+                let top_bad = crate::interp::cur::verify_program::<G>(&prog, &vs, b, &env.pc, &env.bp_of(top_cap)).res;
                 match rb {
                     Ok(Err(R1CSError::VerificationError)) => o.count("verify(bad proof):cap>=T->VerificationError", 1),
+                    Ok(other) if other == top_bad && !matches!(other, Err(R1CSError::InvalidGeneratorsLength)) => o.count("verify(bad proof):cap>=T->same verdict as with the largest capacity", 1),
                     Ok(other) => o.violate(format!("bad-proof-verdict:{}", res_name(&other)), format!("an invalid proof verified with surplus capacity {} gives {}", cap, res_name(&other)), detail(cap)),
                     Err((loc, msg)) => o.violate(format!("verify-panic@{}", loc), format!("verify panicked: {} {}", loc, msg), detail(cap)),
                 }
